@@ -1,0 +1,30 @@
+//go:build verif
+
+package util
+
+import (
+	"time"
+
+	"github.com/pkg/errors"
+)
+
+// NewSimpleTimersWithMapVerif is NewSimpleTimers with the timers map supplied
+// by the caller; the verification harness passes a map, which operations can be
+// observed and parked.
+func NewSimpleTimersWithMapVerif(
+	timers LockedMap[TimerID, *SimpleTimer],
+	resolution time.Duration,
+) (*SimpleTimers, error) {
+	if resolution < 1 {
+		return nil, errors.Errorf("too narrow resolution, %v", resolution)
+	}
+
+	ts := &SimpleTimers{
+		timers:     timers,
+		resolution: resolution,
+	}
+
+	ts.ContextDaemon = NewContextDaemon(ts.start)
+
+	return ts, nil
+}
